@@ -9,8 +9,8 @@ CONSTANTS
   MIds = {1, 2, 3}
   MVoters = {1, 2, 3}
   MLearners = {}
-  PreVoteOn = TRUE
-  CheckQuorumOn = TRUE
+  PreVoteOn = FALSE
+  CheckQuorumOn = FALSE
   MaxTerm = 3
   MaxLog = 2
   MaxNet = 4
@@ -18,7 +18,7 @@ CONSTANTS
   MaxProposals = 1
   MaxDepth = 60
   AllowDrop = TRUE
-  AllowDup = FALSE
+  AllowDup = TRUE
   AllowAsync = FALSE
   AllowCrash = FALSE
   PrintReplay = TRUE
@@ -26,10 +26,10 @@ CONSTANTS
   EagerReady = TRUE
   QuiescentTicks = TRUE
   MaxLeaderTicks = 1
-  TickNodes = {1, 2, 3}
-  MaxDrops = 2
-  MaxTransfers = 0
-  TransferTargets = {}
+  TickNodes = {1, 3}
+  MaxDrops = 1
+  MaxTransfers = 2
+  TransferTargets = {1, 2, 3}
   MaxConf = 0
   ConfMenuIds = {}
   MaxReads = 0
